@@ -81,10 +81,16 @@ def argv_of(case, idx):
 
 
 def run_case(case, idx):
-    name = "jvprog_%d" % idx
-    with open(os.path.join(SCRATCH, name + ".py"), "w") as f:
-        f.write(program_src(case["components"]))
+    # History: every program of this process is imported under ONE module name, so that classes and functions of
+    # successive programs share module.qualname (a class factory / a redefined class / a second auto_cli call of a
+    # long-running process); anything auto_cli remembers about an earlier component must not leak into the next call.
+    name = "jvprog"
+    path = os.path.join(SCRATCH, name + ".py")
+    with open(path, "w") as f:
+        f.write(program_src(case["components"]) + "\n# program %d\n" % idx)
+    os.utime(path, (1000000000 + idx, 1000000000 + idx))   # distinct mtime: the import system and linecache must re-read
     importlib.invalidate_caches()
+    sys.modules.pop(name, None)
     mod = importlib.import_module(name)
     argv = argv_of(case, idx)
     PHASE["parsing"] = False
